@@ -112,8 +112,7 @@ def run(ctx):
     ctx.cov["rule"] = ("one evaluation = one spec transition executed on the real library (edge-cover replay / simulated behaviours) judged for: open_job writes nothing, "
                        "init persists the exact (type-exact) state point, init on a valid job does not rewrite, a fresh session finds the job; plus every id prefix query "
                        "of a workspace with colliding ids resolved by TLC (Prefix.tla) and by a fresh session; distinct = (config, op, outcome) / (prefix length, outcome, cache)")
-    for c in configs(ctx):
-        F.run_config(ctx, PID, c)
+    F.run_configs(ctx, PID, configs(ctx))
     F.run_recorded(ctx, PID, "random-wide", 40 if ctx.quick else 2000, 30 if ctx.quick else 50, OPS + ["docset", "update_cache", "delete_cache", "copy", "setkey"], projects=("P",))
     prefix_check(ctx)
     ctx.cov["binding_selftest"] = F.selftest(ctx, PID)
